@@ -32,6 +32,15 @@ func compileProgram(name, src string, mroPaths []string) (*rtProgram, error) {
 	if ast.Call == nil {
 		return nil, fmt.Errorf("no call")
 	}
+	// call-graph resolution is part of acceptance (mrp refuses to invoke otherwise)
+	if _, err := ast.MakePipelineCallGraph("ID.ps.", ast.Call); err != nil {
+		return nil, err
+	}
+	// resolution annotates the AST; the dependency oracle wants the source-level tree
+	_, _, ast, err = syntax.ParseSourceBytes([]byte(src), "pipeline.mro", mroPaths, false)
+	if err != nil {
+		return nil, err
+	}
 	return &rtProgram{Name: name, Src: src, MroPaths: mroPaths, Ast: ast, Deps: NewDepOracle(ast)}, nil
 }
 
